@@ -34,8 +34,8 @@ claim("C15",
   "DESIGN.md 9/C15")
 
 claim("C03",
-  "Real createBufferManager/createFreeBufferList/mappingBufferManager/mappingFreeBufferList on small memory lengths (shape) with 1-3 fully symbolic (size, percent) uint32 pairs (sizes <= capacity, sorted or not, arbitrary old memory contents): create fails with an error or every symbolic slot of every class lies inside the mapping behind its headers, classes are disjoint, the created list header is as specified, and the peer's mapping yields the same classes, capacities, offsets; real createQueueManagerWithMemFd/mappingQueueManagerMemfd over an OS model: extents, capacities, cross-wiring (what A sends B receives and vice versa, same cells).",
-  "memory lengths from a listed set up to 300 bytes (the full-width 2^32 arithmetic is NOT claimed); OS model: mapping the same fd yields the same region (assumed kernel guarantee); file back-end differs only in OS calls and is not run",
+  "Real createBufferManager/createFreeBufferList/mappingBufferManager/mappingFreeBufferList on small memory lengths (shape) with 1-3 fully symbolic (size, percent) uint32 pairs (sizes <= capacity, sorted or not, arbitrary old memory contents): create fails with an error or every symbolic slot of every class lies inside the mapping behind its headers, classes are disjoint, the created list header is as specified, and the peer's mapping yields the same classes, capacities, offsets; the same checks for two and three classes with sizes and percents from lists (H_C03_sized: configurations enumerated, old memory contents and the examined slot symbolic) on every listed memory length; real createQueueManagerWithMemFd/mappingQueueManagerMemfd over an OS model: extents, capacities, cross-wiring (what A sends B receives and vice versa, same cells).",
+  "memory lengths from a listed set up to 300 bytes (the full-width 2^32 arithmetic is NOT claimed); fully symbolic sizes/percents: one class on every length, two classes only up to 43 bytes (larger ones are not decided within 20 min); OS model: mapping the same fd yields the same region (assumed kernel guarantee); file back-end differs only in OS calls and is not run",
   "DESIGN.md 15.3/C03")
 claim("C06",
   "Writer side: up to W calls of WriteBytes/Reserve/WriteByte/WriteString of every size class relative to the slice capacities, flush points, every slice-size configuration and exhaustion degree, through the real transport (Stream.Flush -> queue or socket fallback -> handleEvents/handlePolling/handleFallbackData -> pendingData.moveTo); reader side: ReadBytes/Peek/Discard/ReadByte/ReadString/Read of every size; bytes are symbolic and compared position by position with a byte-queue model; Len == flushed - consumed after every call; everything comes back after release.",
